@@ -176,7 +176,7 @@ def align_script(drv, script_text, multiple, scratch, before="ev OHe", inline=Fa
     d = (-size) % multiple
     if d == 0:
         return script_text, size
-    if d < 12:
+    if d < 12 or d == 13:      # 13 would need a one-byte payload, which the API does not take
         d += multiple
     pad = []
     while d > 28:
